@@ -39,20 +39,17 @@ func refIsInfixBinary(op string) bool {
 // every sub-expression.
 func vfInfixRender(n *refNode, style int) string {
 	if n.leaf {
-		if l, ok := n.lit.([]int64); ok {
-			s := "["
-			for i, v := range l {
-				if i > 0 {
-					s += " "
-				}
-				s += strconv.FormatInt(v, 10)
-			}
-			return s + "]"
+		if body, ok := vfListBody(n); ok {
+			return "[" + body + "]"
+		}
+		atom := n.atom
+		if _, isStr := n.lit.(string); isStr {
+			atom = "\"" + atom + "\""
 		}
 		if style == 2 {
-			return "(" + n.atom + ")"
+			return "(" + atom + ")"
 		}
-		return n.atom
+		return atom
 	}
 	wrap := func(s string) string {
 		if style == 2 {
@@ -95,17 +92,39 @@ func vfInfixRender(n *refNode, style int) string {
 	return wrap(s + ")")
 }
 
+// vfListBody renders the elements of a list literal leaf (integers, strings or
+// none at all), separated by single spaces.
+func vfListBody(n *refNode) (string, bool) {
+	switch l := n.lit.(type) {
+	case []int64:
+		s := ""
+		for i, v := range l {
+			if i > 0 {
+				s += " "
+			}
+			s += strconv.FormatInt(v, 10)
+		}
+		return s, true
+	case []string:
+		s := ""
+		for i, v := range l {
+			if i > 0 {
+				s += " "
+			}
+			s += "\"" + v + "\""
+		}
+		return s, true
+	}
+	return "", false
+}
+
 func vfPrefixRender(n *refNode) string {
 	if n.leaf {
-		if l, ok := n.lit.([]int64); ok {
-			s := "("
-			for i, v := range l {
-				if i > 0 {
-					s += " "
-				}
-				s += strconv.FormatInt(v, 10)
-			}
-			return s + ")"
+		if body, ok := vfListBody(n); ok {
+			return "(" + body + ")"
+		}
+		if _, isStr := n.lit.(string); isStr {
+			return "\"" + n.atom + "\""
 		}
 		return n.atom
 	}
